@@ -37,6 +37,23 @@ Theorem C20_never_out_of_order : forall tz base q responses,
 Proof. exact get_sessions_prefix. Qed.
 Print Assumptions C20_never_out_of_order.
 
+(* Laziness (the generator is consumed session by session): taking only k sessions and closing the generator
+   yields the first k of what full consumption yields, makes only a prefix of the requests (none at all, not
+   even the site check, for k = 0), and is the full run as soon as k exceeds the number of sessions. *)
+Theorem C20_lazy_prefix : forall tz base q responses k,
+  t_yielded (get_sessions_take tz base q responses k) = firstn k (t_yielded (get_sessions tz base q responses)) /\
+  (exists m, t_requests (get_sessions_take tz base q responses k)
+             = firstn m (t_requests (get_sessions tz base q responses))) /\
+  ((List.length (t_yielded (get_sessions tz base q responses)) < k)%nat ->
+   get_sessions_take tz base q responses k = get_sessions tz base q responses) /\
+  get_sessions_take tz base q responses 0 = {| t_requests := []; t_yielded := []; t_outcome := Suspended |}.
+Proof.
+  exact (fun tz base q responses k =>
+    let '(conj a (conj b c)) := take_spec tz base q responses k in
+    conj a (conj b (conj c (take_zero tz base q responses)))).
+Qed.
+Print Assumptions C20_lazy_prefix.
+
 (* exactly #pages requests: it stops at the first page without a next link *)
 Theorem C20_stops : forall tz base q ps extra,
   valid_site (q_site q) = true -> paging ps -> Forall (convertible tz) (all_items ps) ->
@@ -69,6 +86,17 @@ Proof.
    (conj (first_request tz base q responses) (conj eq_refl (query_args_spec q))))).
 Qed.
 Print Assumptions C20_query.
+
+(* count_sessions (also reached through get_sessions_by_time(count=True)): an invalid site raises before any
+   request; otherwise exactly one HEAD request to <base>sessions/<site>?[where=<cond>&]limit=1 *)
+Theorem C20_count_query : forall base site cond total,
+  (valid_site site = false -> count_sessions base site cond total = ([], Err "ValueError")) /\
+  (valid_site site = true ->
+     count_sessions base site cond total =
+     ([base ++ "sessions/" ++ site ++ "?" ++ match cond with Some c => "where=" ++ c ++ "&limit=1" | None => "limit=1" end],
+      match total with Some h => Ok h | None => Err "KeyError" end)).
+Proof. exact count_sessions_spec. Qed.
+Print Assumptions C20_count_query.
 
 (* the string literals the model is built from are re-read from data_client.py / utils.py on every run
    (Gen/ClientShape.v); this fails to compile as soon as one of them changes *)
